@@ -7,7 +7,7 @@ import BigtreeModel.CopyStore
 ops: `<o|r>.P.<v>.<p>` (v.parent = p) · `.D.<v>` (v.parent = None) · `.X.<v>` (del v.children) ·
 `.A.<v>.<xkey>.<val>` (set_attrs) · `.N.<v>.<xname>` (rename); `o` = node of the input tree by
 pre-order id, `r` = node of the returned tree's component by pre-order index at return time.
-→ `ok ret=<r-index|-> orig=<cells> res=<cells|->` | `err:<class> orig=<cells>`;
+→ `ok ret=<r-index|-> orig=<cells> res=<cells|->` | `err:<class> orig=<cells>` (`fn=dag` → `ok dag`);
 a cell is `<parent>|<children>|<xname>|<attrs sorted by key>`, cells joined by `;`. -/
 namespace Drv.C07
 open Proto CopyStore
@@ -85,6 +85,8 @@ def errName : Helper.Err → String
 def handle (toks : List String) : String :=
   let r : Option String := do
     let fn ← kv toks "fn"
+    -- DAG functions are monitored by the model-free oracle only (the store models trees)
+    if fn == "dag" then return "ok dag"
     let start ← (← kv toks "start").toNat?
     let tsep ← unhex (← kv toks "tsep")
     let hist ← kv toks "hist"
